@@ -430,11 +430,21 @@ func c11EndToEnd(c *Ctx, r *Rng) {
 		os.WriteFile(filepath.Join(dir, "f.txt"), []byte("x"), 0o644)
 		runIn(dir, nil, "git", "add", "f.txt")
 		runIn(dir, nil, "git", "commit", "-qm", "init")
+		// the user's own settings in Git's configuration: they count whatever the repository's file holds
+		runIn(dir, nil, "git", "config", "lfs.concurrenttransfers", "3")
+		runIn(dir, nil, "git", "config", "lfs.url", "http://good.example/mine")
 		base, _ := runIn(dir, nil, c.Lfs, "env")
 		// pick 1-3 hostile keys (every key alone first)
 		var picks [][2]string
+		unparsable := false
 		if i < len(hostile) {
 			picks = append(picks, hostile[i])
+		} else if i == len(hostile)+1 || r.Chance(8) {
+			// a .lfsconfig Git cannot parse (left behind by a conflicted merge): it is left out, Git's own
+			// configuration still counts
+			os.WriteFile(filepath.Join(dir, ".lfsconfig"), []byte("<<<<<<< HEAD\n[lfs]\n\turl = http://evil.example/a\n=======\n[lfs]\n\turl = http://evil.example/b\n>>>>>>> other\n"), 0o644)
+			c.R.Count("e2e.unparsable-file")
+			unparsable = true
 		} else if i == len(hostile) || r.Chance(8) {
 			// an EMPTY .lfsconfig: no key at all — nothing may change and nothing may be reported as ignored
 			os.WriteFile(filepath.Join(dir, ".lfsconfig"), nil, 0o644)
@@ -451,6 +461,9 @@ func c11EndToEnd(c *Ctx, r *Rng) {
 			desc = append(desc, kv[0])
 		}
 		loc := Pick(r, []string{"worktree", "index", "head", "head", "head+index", "bare"})
+		if unparsable && r.Chance(70) {
+			loc = "worktree" // that is where Git's refusal to parse the file used to take Git's own configuration with it
+		}
 		rundir := dir
 		if loc != "worktree" {
 			runIn(dir, nil, "git", "add", ".lfsconfig")
@@ -609,6 +622,9 @@ func stripEnv(s string) string {
 				continue
 			}
 			skip = false
+		}
+		if strings.HasPrefix(l, "Error reading `git config`") {
+			continue // a file that cannot be read is reported; what counts is the effective configuration below
 		}
 		out = append(out, l)
 	}
